@@ -56,6 +56,26 @@ def subcritical_T(backend_name, r, margin=0.02):
 STORED_VS_BACKEND_CONTEXTS = [("difluoromethane", 250.0), ("fluorine", 85.0)]
 
 
+USER_VAPOUR = "verif-user-vapour"
+_USER_VAPOUR_PROPS = {"molar_mass": 72.15, "saturation_pressure": 68300.0, "liquid_density": 0.626, "gas_density": 0.00205}
+
+
+def user_vapour():
+    """(name, reference fluid) of a registered user-defined vapour without thermodynamic backend: every constant is a stored property."""
+    import pygaps
+    try:
+        pygaps.Adsorbate.find(USER_VAPOUR)
+    except Exception:
+        pygaps.Adsorbate(USER_VAPOUR, store=True, formula="X", surface_tension=15.5, cross_sectional_area=0.45, enthalpy_liquefaction=26.4,
+                         liquid_molar_density=_USER_VAPOUR_PROPS["liquid_density"] / _USER_VAPOUR_PROPS["molar_mass"],
+                         gas_molar_density=_USER_VAPOUR_PROPS["gas_density"] / _USER_VAPOUR_PROPS["molar_mass"], **_USER_VAPOUR_PROPS)
+    return USER_VAPOUR, RU.UserFluid(_USER_VAPOUR_PROPS["molar_mass"], _USER_VAPOUR_PROPS["saturation_pressure"], _USER_VAPOUR_PROPS["liquid_density"], _USER_VAPOUR_PROPS["gas_density"])
+
+
+def reference_fluid(ads):
+    return user_vapour()[1] if ads == USER_VAPOUR else RU.fluid(backend_of(ads))
+
+
 def contexts(tier, seed, n_quick=5):
     """(adsorbate name, temperature K) pairs."""
     r = rng(seed, "ctx")
